@@ -515,11 +515,15 @@ def _r6(ctx):
     ctx.decide(ok, "C02-R6", fn, TRAJ, "load", "every further file loaded with **kwargs", "", "later files of a list are loaded without the caller's options")
     patched = [n for n in walk_no_nested(fn) if isinstance(n, ast.Assign) and isinstance(n.targets[0], ast.Attribute)
                and isinstance(n.targets[0].value, ast.Subscript) and dotted(n.targets[0].value.value) == "kwargs"]
+    from ..cfg import CFG as _CFG
+    lcfg = _CFG(fn)
+    ldom = lcfg.dominators()
     for n in patched:
-        # allowed only when kwargs['top'] was replaced by a private copy before
-        copied = any(isinstance(a, ast.Assign) and isinstance(a.targets[0], ast.Subscript) and dotted(a.targets[0].value) == "kwargs" and const(a.targets[0].slice) == "top"
-                     and isinstance(a.value, ast.Call) and (src(a.value.func).endswith((".copy", "deepcopy")) or src(a.value.func) == "copy") and a.lineno < n.lineno
-                     for a in walk_no_nested(fn))
+        # allowed only when kwargs['top'] was replaced by a private copy before - on *every* path to the patch (the copy dominates it)
+        copies = [a for a in walk_no_nested(fn) if isinstance(a, ast.Assign) and isinstance(a.targets[0], ast.Subscript) and dotted(a.targets[0].value) == "kwargs" and const(a.targets[0].slice) == "top"
+                  and isinstance(a.value, ast.Call) and (src(a.value.func).endswith((".copy", "deepcopy")) or src(a.value.func) == "copy")]
+        pn = lcfg.node_containing(n)
+        copied = any(lcfg.node_containing(a) is not None and pn is not None and lcfg.node_containing(a) != pn and lcfg.dominates(lcfg.node_containing(a), pn, ldom) for a in copies)
         ctx.decide(copied, "C02-R6", n, TRAJ, "load", "`%s` acts on a private copy" % src(n.targets[0]), "",
                    "`%s` patches the topology object the caller passed as top=: a later load with the same object silently gets the first call's atom subset" % src(n)[:70])
     if not patched:
